@@ -37,7 +37,7 @@ Qed.
 
 (* ---------------------------------------------------------------- scalar fields *)
 
-Ltac inv_fields I := destruct I as [Icrash Ipause Ipause1 Irun Irerun Ievents Ineed Iindex Iresp Isend Iflight Ireq Iapps Iqueues].
+Ltac inv_fields I := destruct I as [Icrash Ipause Ipause1 Irun Irerun Ievents Ineed Iindex Iresp Isend Iempty Iflight Ireq Iapps Iqueues].
 
 Ltac rw_state :=
   repeat match goal with
@@ -57,7 +57,7 @@ Lemma step_pause s l s' : inv s -> step cfg_fixed s l = Some s' ->
   ewait s' + (if ebool epc_preclear (eng s') then 1 else 0) = (if erunning s' then 1 else 0) /\
   (rerun s' = true -> erunning s' = true).
 Proof.
-  intros I H. inv_fields I. clear Iapps Iqueues Iflight Ireq Iresp Isend Iindex Ievents Ineed.
+  intros I H. inv_fields I. clear Iapps Iqueues Iflight Ireq Iresp Isend Iempty Iindex Ievents Ineed.
   step_inv H; simpl in *; unfold eq_or_end; rw_state; simpl in *.
   all: repeat match goal with |- context [if ?b then _ else _] => destruct b eqn:?; simpl in * end.
   all: try (destruct (ra s); simpl in *; repeat split; auto; try lia; try discriminate; fail).
@@ -71,7 +71,7 @@ Qed.
 Lemma resp_matched s : inv s -> forall q r, resp s = q :: r -> match_response s q = Some q.
 Proof.
   intros I q r Hr. destruct (i_flight s I) as (_ & Hf). destruct (Hf q) as (qq & E & R & C).
-  { unfold flight. rewrite Hr. apply in_or_app. right. apply in_or_app. right. left. reflexivity. }
+  { unfold flight. rewrite Hr. apply in_or_app. right. apply in_or_app. right. apply in_or_app. right. left. reflexivity. }
   eapply match_response_ok; eauto.
 Qed.
 
@@ -86,20 +86,13 @@ Lemma step_crash s l s' : inv s -> step cfg_fixed s l = Some s' -> crashed s' = 
 Proof.
   intros I H. pose proof (resp_matched s I) as MR. inv_fields I. unfold flight in Iflight.
   step_inv H; simpl in *; auto; exfalso; norm_resp MR.
-  - (* Unsubscribe *)
+  1: { (* Unsubscribe *)
     match goal with Ha : nth_error (apps s) _ = Some _ |- _ => destruct (Iapps _ _ Ha) as (_ & Hpc & _) end.
     match goal with Hp : a_pc _ = _ |- _ => rewrite Hp in Hpc end.
-    destruct Hpc as (qq & E & Hin). apply mem_nat_In in Hin. congruence.
-  - (* response for a queue that is not running *)
-    destruct Iflight as (_ & Hf). destruct (Hf n) as (qq & E & R & C).
-    { apply in_or_app. right. apply in_or_app. right. left. reflexivity. }
-    congruence.
-  - destruct Iflight as (_ & Hf). destruct (Hf n) as (qq & E & R & C).
-    { apply in_or_app. right. apply in_or_app. right. left. reflexivity. }
-    congruence.
-  - destruct Iflight as (_ & Hf). destruct (Hf n) as (qq & E & R & C).
-    { apply in_or_app. right. apply in_or_app. right. left. reflexivity. }
-    congruence.
+    destruct Hpc as (qq & E & Hin). apply mem_nat_In in Hin. congruence. }
+  (* a completion for a queue that is not in flight *)
+  all: destruct Iflight as (_ & Hf); destruct (Hf n) as (qq & E & R & C);
+    [rewrite ?in_app_iff; simpl; tauto | congruence].
 Qed.
 
 Lemma nth_error_some_ltb {A} (l : list A) i x : nth_error l i = Some x -> Nat.ltb i (length l) = true.
@@ -153,6 +146,21 @@ Proof.
   all: try (intros; apply orb_true_r).
   all: try (intros; destruct (tick s); simpl in *; auto; fail).
   all: try (intros; match goal with H1 : tosend _ = [], H2 : nonempty (tosend _) = true |- _ => rewrite H1 in H2; discriminate end).
+  all: intros; try discriminate; repeat match goal with |- context [if ?b then _ else _] => destruct b eqn:? end; simpl; apply orb_true_r.
+Qed.
+
+Lemma step_empty s l s' : inv s -> step cfg_fixed s l = Some s' ->
+  nonempty (empties s') = true -> tick s' || ebool (fun p => epc_at_empty p || epc_mp p) (eng s') = true.
+Proof.
+  intros I H. pose proof (i_empty s I) as Iempty. clear I.
+  step_inv H; simpl in *; unfold eq_or_end in *; simpl; auto.
+  all: try (intros; discriminate).
+  all: try (intros; apply orb_true_r).
+  all: rw_state; simpl in *; auto.
+  all: try (repeat match goal with |- context [if ?b then _ else _] => destruct b eqn:? end; simpl in *; auto; fail).
+  all: try (intros; apply orb_true_r).
+  all: try (intros; destruct (tick s); simpl in *; auto; fail).
+  all: try (intros; match goal with H1 : empties _ = [], H2 : nonempty (empties _) = true |- _ => rewrite H1 in H2; discriminate end).
   all: intros; try discriminate; repeat match goal with |- context [if ?b then _ else _] => destruct b eqn:? end; simpl; apply orb_true_r.
 Qed.
 
@@ -417,6 +425,7 @@ Proof.
     unfold app_inv, listening, wake_ok in *; simpl in *. rewrite upd_length. repeat split; auto; try tauto.
   - notify_case FW.
   - notify_case FW.
+  - notify_case FW.
 Qed.
 
 (* ---------------------------------------------------------------- requests in flight, work *)
@@ -464,6 +473,11 @@ Proof.
   - rewrite nth_error_upd_other by assumption. eauto.
 Qed.
 
+Lemma async_start_perm (i : nat) e t rest : Permutation (e ++ (t ++ [i]) ++ rest) (i :: e ++ t ++ rest).
+Proof.
+  eapply perm_trans; [apply Permutation_app_head, start_perm|]. apply Permutation_sym, Permutation_middle.
+Qed.
+
 Lemma step_flight s l s' : inv s -> step cfg_fixed s l = Some s' -> flight_ok s'.
 Proof.
   intros I H. pose proof (resp_matched s I) as MR. destruct (i_flight s I) as (ND & FL). clear I.
@@ -474,11 +488,16 @@ Proof.
             intro X; apply app_eq_nil in X; destruct X; discriminate).
   all: repeat match goal with H : resp _ = _ |- _ => rewrite H in *; clear H end.
   all: repeat match goal with H : tosend _ = _ |- _ => rewrite H in *; clear H end.
+  all: repeat match goal with H : empties _ = _ |- _ => rewrite H in *; clear H end.
   all: try (split; assumption).
   - (* sendToGPUs *)
-    pose proof (send_perm n l0 (gpu s) (resp s)) as P. split.
+    pose proof (Permutation_app_head (empties s) (send_perm n l0 (gpu s) (resp s))) as P. split.
     + eapply Permutation_NoDup; [symmetry; exact P|exact ND].
     + intros q0 Hq0. apply FL. apply (Permutation_in _ P) in Hq0. exact Hq0.
+  - (* an empty copy is completed *)
+    simpl in ND. inversion ND as [|? ? Hn ND']; subst. split; [exact ND'|].
+    intros q0 Hq0. assert (Nq : q0 <> n) by (intros ->; contradiction).
+    rewrite nth_error_upd_other by auto. apply FL. right. exact Hq0.
   - (* a response is consumed *)
     rewrite !app_assoc in ND. rewrite !app_assoc. split; [eapply NoDup_remove_1; eauto|].
     intros q0 Hq0. assert (Nq : q0 <> n).
@@ -490,15 +509,24 @@ Proof.
     { intros ->. destruct (FL _ Hq0) as (qq & E & R & _). congruence. }
     rewrite nth_error_upd_other by auto. auto.
   - (* an asynchronous command starts *)
-    assert (Ni : ~ In i (tosend s ++ gpu s ++ resp s)).
+    assert (Ni : ~ In i (empties s ++ tosend s ++ gpu s ++ resp s)).
     { intros Hi. destruct (FL _ Hi) as (qq & E & R & _). congruence. }
-    pose proof (start_perm i (tosend s) (gpu s ++ resp s)) as P. split.
+    pose proof (async_start_perm i (empties s) (tosend s) (gpu s ++ resp s)) as P. split.
+    + eapply Permutation_NoDup; [symmetry; exact P|]. constructor; auto.
+    + intros q0 Hq0. apply (Permutation_in _ P) in Hq0. destruct (Nat.eq_dec i q0) as [->|N].
+      * erewrite nth_error_upd_same by eassumption. eexists; split; [reflexivity|]. simpl. split; auto. congruence.
+      * rewrite nth_error_upd_other by assumption. apply FL. destruct Hq0; [congruence|assumption].
+  - (* an empty copy starts *)
+    assert (Ni : ~ In i (empties s ++ tosend s ++ gpu s ++ resp s)).
+    { intros Hi. destruct (FL _ Hi) as (qq & E & R & _). congruence. }
+    pose proof (start_perm i (empties s) (tosend s ++ gpu s ++ resp s)) as P. split.
     + eapply Permutation_NoDup; [symmetry; exact P|]. constructor; auto.
     + intros q0 Hq0. apply (Permutation_in _ P) in Hq0. destruct (Nat.eq_dec i q0) as [->|N].
       * erewrite nth_error_upd_same by eassumption. eexists; split; [reflexivity|]. simpl. split; auto. congruence.
       * rewrite nth_error_upd_other by assumption. apply FL. destruct Hq0; [congruence|assumption].
   - (* the GPU answers *)
-    apply mem_nat_In in Heqb0. pose proof (answer_perm q (tosend s) _ (resp s) Heqb0) as P. split.
+    apply mem_nat_In in Heqb0.
+    pose proof (Permutation_app_head (empties s) (answer_perm q (tosend s) _ (resp s) Heqb0)) as P. split.
     + eapply Permutation_NoDup; [symmetry; exact P|exact ND].
     + intros q0 Hq0. apply FL. eapply Permutation_in; eauto.
 Qed.
@@ -515,12 +543,17 @@ Proof.
   all: norm_resp MR.
   all: repeat match goal with H : resp _ = _ |- _ => rewrite H in *; clear H end.
   all: repeat match goal with H : tosend _ = _ |- _ => rewrite H in *; clear H end.
+  all: repeat match goal with H : empties _ = _ |- _ => rewrite H in *; clear H end.
   all: try (apply nth_error_upd_inv in Hq; destruct Hq as (x & Hq & ->);
             match type of R with context [if Nat.eqb ?a ?b then _ else _] => destruct (Nat.eqb a b) eqn:E end;
             simpl in R; try discriminate; eauto; fail).
   all: try (eapply IQ; eauto; fail).
   - (* sendToGPUs *)
-    eapply Permutation_in; [symmetry; apply send_perm|]. eapply IQ; eauto.
+    eapply Permutation_in; [symmetry; apply Permutation_app_head, send_perm|]. eapply IQ; eauto.
+  - (* empty copy completed *)
+    apply nth_error_upd_inv in Hq. destruct Hq as (x & Hq & ->).
+    destruct (Nat.eqb n q) eqn:E; simpl in R; [discriminate|].
+    pose proof (IQ _ _ Hq R) as Hin. simpl in Hin. destruct Hin as [->|Hin]; [rewrite Nat.eqb_refl in E; discriminate|exact Hin].
   - (* response consumed *)
     apply nth_error_upd_inv in Hq. destruct Hq as (x & Hq & ->).
     destruct (Nat.eqb n q) eqn:E; simpl in R; [discriminate|].
@@ -529,12 +562,19 @@ Proof.
     destruct Hin as [?|[->|?]]; auto. rewrite Nat.eqb_refl in E. discriminate.
   - (* asynchronous start *)
     apply nth_error_upd_inv in Hq. destruct Hq as (x & Hq & ->).
+    eapply Permutation_in; [symmetry; apply async_start_perm|]. simpl.
+    destruct (Nat.eqb i q) eqn:E; simpl in R.
+    + apply Nat.eqb_eq in E. subst. left. reflexivity.
+    + right. eapply IQ; eauto.
+  - (* empty copy starts *)
+    apply nth_error_upd_inv in Hq. destruct Hq as (x & Hq & ->).
     eapply Permutation_in; [symmetry; apply start_perm|]. simpl.
     destruct (Nat.eqb i q) eqn:E; simpl in R.
     + apply Nat.eqb_eq in E. subst. left. reflexivity.
     + right. eapply IQ; eauto.
   - (* GPU answers *)
-    apply mem_nat_In in Heqb0. eapply Permutation_in; [symmetry; apply answer_perm; exact Heqb0|]. eapply IQ; eauto.
+    apply mem_nat_In in Heqb0. eapply Permutation_in; [symmetry; apply Permutation_app_head, answer_perm; exact Heqb0|].
+    eapply IQ; eauto.
 Qed.
 
 Definition dirty_ex (ap : list app) : Prop := exists t a, nth_error ap t = Some a /\ a_dirty a = true.
@@ -646,6 +686,7 @@ Proof.
   - eapply step_index; eauto.
   - eapply step_resp; eauto.
   - eapply step_send; eauto.
+  - eapply step_empty; eauto.
   - exact (step_flight _ _ _ I H).
   - exact (step_req _ _ _ I H).
   - eapply step_apps; eauto.
